@@ -1245,6 +1245,22 @@ theorem pathset_rules_lawful_with_sets :
     PathSet.pathRules.LawfulOn (fun p => PathSet.keysDeepM p = true) :=
   PathSet.pathRules_lawfulOn_deepM
 
+/-- **PathSet refines sets of paths for all histories over paths whose keys hold sets** —
+`pathset_refines` on that carrier, for the same two functions (`deepRulesM` = `pathRules`
+on the subtype) -/
+theorem pathset_refines_with_sets (ops : List (PathSet.PSOp PathSet.DeepPathM))
+    (st : List (SetImpl PathSet.DeepPathM))
+    (h : ∀ i, SetImpl.Inv PathSet.deepRulesM (SetImpl.getReg st i)) :
+    let R := PathSet.deepRulesM
+    let out := PathSet.psRun R PathSet.prefixesDM ops st
+    (∀ i, SetImpl.Inv R (SetImpl.getReg out.1 i)) ∧
+    SetImpl.absRegs R out.1 = PathSet.psSpecRun R PathSet.prefixesDM ops (SetImpl.absRegs R st) ∧
+    PathSet.PSOutsOk R PathSet.prefixesDM (SetImpl.absRegs R st) ops out.2 := by
+  have hR := PathSet.deepRulesM_lawful
+  have hB : SetImpl.AllInv PathSet.deepRulesM st := fun j => (h j).toB hR
+  refine ⟨fun i => ((PathSet.allInv_psRun hR ops hB) i).toInv hR, ?_⟩
+  exact PathSet.psRun_refines hR ops hB
+
 /-- a set of strings and a marked list of sets as keys: in the carrier -/
 example :
     PathSet.keysDeepM [.index ⟨.set .string,
